@@ -135,3 +135,15 @@ contract('odml/validation.py::property_dependency_check',
          raises={},
          invariants={0: 'dep_obj is None and all(field(item(_it, j), "_name") != dep for j in range(_i))'},
          props=('C08', 'C19'))
+
+
+# ---- the issue collector: every issue a rule yields is recorded, once, in order (C08/C09) ----------
+contract('odml/validation.py::Validation.error',
+         types={'self': 'Validation', 'validation_error': 'ValidationError'}, inv=False,
+         requires='is_ref(field(self, "errors")) and llen(field(self, "errors")) >= 0',
+         ensures=['field(self, "errors") is old(field(self, "errors"))',
+                  'llen(field(self, "errors")) == old(llen(field(self, "errors"))) + 1',
+                  'item(field(self, "errors"), old(llen(field(self, "errors")))) is validation_error'],
+         raises={},
+         props=('C08', 'C09'),
+         note='the collector appends unconditionally: no issue is dropped, merged or reordered')
